@@ -412,7 +412,7 @@ VARIANTS = [
 
 META = {
     "design_ref": "DESIGN.md section 3, C05",
-    "technique": "interprocedural ownership / escape abstract interpretation (shared-AST mutation), module-state and paired-global-state lints",
+    "technique": "interprocedural ownership / escape abstract interpretation (shared-AST mutation), module-state and paired-global-state lints; effect analysis of memoised functions over the call graph; escaping closures and mutated default arguments",
     "level_text": ("Decides on the current source, for every mutation site in the package, whether the mutated object can "
                    "be reachable from the result of an lru_cache'd function or from module-level state; interprocedural "
                    "through per-function summaries (which parameters are mutated, what the result derives from) computed "
